@@ -26,7 +26,7 @@ type genStats struct {
 	setters, ptrsets, crossCopies, memberCopies, crossSeg int
 	setstruct, copyfrom                                   int
 	skewSmaller, skewLarger, skewSame                     int
-	treeSkew, treeAlias, reopens                          int
+	treeSkew, treeAlias, reopens, oddMembers              int
 	srcKinds                                              map[string]int
 	ptrKinds                                              map[string]int
 	arenas                                                map[string]int
@@ -530,7 +530,7 @@ func run(out *Out, r *Rand, tier string, replay []string) {
 		"cross_message_copies": st.crossCopies, "list_member_copies": st.memberCopies,
 		"cross_segment_targets": st.crossSeg, "setstruct": st.setstruct, "copyfrom": st.copyfrom,
 		"skew_dst_smaller": st.skewSmaller, "skew_dst_larger": st.skewLarger, "skew_same": st.skewSame,
-		"reopened_after_decode": st.reopens, "tree_setstruct_skew": st.treeSkew, "tree_aliased_targets": st.treeAlias,
+		"reopened_after_decode": st.reopens, "list_struct_of_sub_word_lists": st.oddMembers, "tree_setstruct_skew": st.treeSkew, "tree_aliased_targets": st.treeAlias,
 		"single_segment_regrowth": st.regrow, "multi_new_segments": st.newSegs,
 		"stopped_at_err": st.stoppedErr, "stopped_at_panic": st.stoppedPanic,
 		"programs_with_far": st.progsWithFar, "programs_with_double_far": st.progsWithDfar,
